@@ -8,6 +8,7 @@ CONSTANTS
   Extra <- FourProc
   GFirst = TRUE
   SelDet = TRUE
+  LogOn = TRUE
   POR = FALSE
 CONSTRAINT DumpSim
 CHECK_DEADLOCK FALSE
